@@ -175,6 +175,33 @@ def styled_cases(R, n):
             R.fail(case, "tool or coolant still reported active after emergency_halt()", tag="still-active")
 
 
+def hook_cases(R, n):
+    """oracle-only: shutdown calls made from inside move hooks (which may then veto the move) and at top level next to such hooks
+    (builder_common.hook_sessions): a shutdown call that returned normally has written its codes, in order, by the time the
+    enclosing call is over"""
+    want = {"tool_off": ["M05"], "power_off": ["M05"], "coolant_off": ["M09"], "emergency_halt": ["M05", "M09", "_", "M00"]}
+
+    def has(lines, seq):
+        return any(lines[i:i + len(seq)] == seq for i in range(len(lines) - len(seq) + 1))
+
+    for case, events, _specs in bc.hook_sessions(R.rng, n):
+        R.evaluations += 1
+        R.count("hook-sessions")
+        for k, e in enumerate(events):
+            done = [(api, "from a hook") for api, res in e["nested"] if res == "ok" and api in want]
+            if e["name"] in want and e["raised"] is None:
+                done.append((e["name"], "at top level"))
+            for api, where in done:
+                R.count("hook-sessions:shutdown " + where)
+                if not has(e["lines"], want[api]):
+                    R.fail(dict(case, step=k), f"`{api}` called {where} during `{e['call']}` returned normally but "
+                           f"{';'.join(want[api])} was not written (written during that call: {e['lines'] or 'nothing'})", tag="shutdown-output")
+                    break
+            if e["name"] in want and e["raised"] is None and not e["nested"]:
+                if (e["name"] in ("tool_off", "power_off", "emergency_halt") and e["tool"]) or (e["name"] in ("coolant_off", "emergency_halt") and e["cool"]):
+                    R.fail(dict(case, step=k), f"tool or coolant still reported active after `{e['call']}`", tag="still-active")
+
+
 def run(R: core.Run):
     R.rule = ("random histories reaching tool on (either API, any power) / coolant on / halted / bounded states, incl. tool-power "
               "ranges that exclude zero, each ending in tool_off, power_off, coolant_off or emergency_halt; non-trivial = tool "
@@ -189,6 +216,7 @@ def run(R: core.Run):
     bc.correspond(R, histories(R, R.n(1500, 20000)), KEYS, True, "random", oracle, nt)
     fault_cases(R, R.n(60, 1000))
     styled_cases(R, R.n(300, 3000))
+    hook_cases(R, R.n(200, 2500))
     if R.broken:
         R.search_batches += 1
         for h in histories(R, R.n(1500, 5000)):
